@@ -8,14 +8,14 @@ here=$(cd "$(dirname "$0")" && pwd)
 tmp=$(mktemp -d /tmp/go2lean-selftest.XXXXXX)
 trap 'rm -rf "$tmp"' EXIT
 (cd "$here/.." && go build -o "$tmp/go2lean" .)
-"$tmp/go2lean" -repo "$here/src" -pkg t -files t.go -ns Selftest.Gen -out "$tmp/Gen.lean" >/dev/null
+"$tmp/go2lean" -repo "$here/src" -pkg t -files t.go -self shelf -skip rack.each -ns Selftest.Gen -out "$tmp/Gen.lean" >/dev/null
 cat "$tmp/Gen.lean" "$here/eval.lean" > "$tmp/Selftest.lean"
 (cd "$here/src" && go run . > "$tmp/go.txt")
 (cd /verif/lean && lake env lean "$tmp/Selftest.lean" > "$tmp/lean.txt") || { cat "$tmp/lean.txt"; echo "selftest: the translated file does not compile"; exit 1; }
 # refusals: every package under src/refuse must be REJECTED (exit 1, no file) with the message its first line wants
 for d in "$here"/src/refuse/*/; do
-  n=$(basename "$d"); want=$(sed -n '1s,^// want: ,,p' "$d/x.go")
-  if "$tmp/go2lean" -repo "$here/src" -pkg "refuse/$n" -files x.go -ns Selftest.R -out "$tmp/refuse-$n.lean" > "$tmp/refuse.txt" 2>&1 \
+  n=$(basename "$d"); want=$(sed -n '1s,^// want: ,,p' "$d/x.go"); flags=$(sed -n '2s,^// flags: ,,p' "$d/x.go")
+  if "$tmp/go2lean" -repo "$here/src" -pkg "refuse/$n" -files x.go $flags -ns Selftest.R -out "$tmp/refuse-$n.lean" > "$tmp/refuse.txt" 2>&1 \
      || [ -e "$tmp/refuse-$n.lean" ]; then :; fi
   if [ -e "$tmp/refuse-$n.lean" ] || ! grep -q "unsupported: .*$want" "$tmp/refuse.txt"; then
     cat "$tmp/refuse.txt"; echo "selftest: refuse/$n was not refused with '$want'"; exit 1
